@@ -6,20 +6,40 @@
    [lawful o n]: on every arena and at every address o obeys GetPut, PutGet, PutPut for values of n bytes.
    [framed o n fp]: a Put of an n-byte value changes no byte of the arena outside the ranges fp.
 
-   PARTIAL (statements of DESIGN 3/C04 that are NOT proved here; the oracle of Check/C04o.v checks them on every
-   explored case):
-   * join_frame in full: "inside the outer focus only the inner focus changes" - proved is C04_join_frame_partial
-     (nothing outside the OUTER focus changes) and, through C04_join_lawful, that the inner optic reads back;
-   * shapeN consequences: "with pairwise disjoint component foci every component reads back its own argument and bytes
-     outside the union of foci are unchanged" - proved is, per arity, that shapeN.Put IS the sequence of component puts
-     (last component first) and shapeN.Get the tuple of component gets (C04_shapeN_Put/Get), from which it follows by
-     C01_put_other_fields, but the N-fold consequence itself is not stated as a theorem;
-   * morphism_roundtrip for lists with several different isos under the disjoint-targets hypothesis - proved is
-     C04_morphism_roundtrip_partial (one iso, any number of nil entries), C04_iso_roundtrip, C04_iso_transport and that
-     the hypothesis is necessary (C04_morphism_needs_disjoint_targets).
+   [window o off n]: o is positional - it reads and writes exactly the n bytes at offset off of the structure; field
+   lenses are windows and so is every Join of windows, at any depth (C04_window_field, C04_window_join).
+   [focused o n fp]: lawful o n, framed o n fp, and Get depends on no byte outside fp (C04_field_focused,
+   C04_join_focused, C04_bimap_focused, C04_chain_focused build it for every optic the derivations produce).
+   [disjoint_fp fp1 fp2]: the two foci share no byte ([disjointb] decides it).
+
+   NOTHING PARTIAL.  The three statements of DESIGN 3/C04 that earlier versions proved only in part are full theorems:
+   * join_frame: C04_join_frame - through Join a b a Put changes no byte of the arena outside the inner focus (the
+     frame of b moved to the offset of a's value), hence inside the outer focus only the inner focus changes;
+     C04_chain_framed says the same with the computed [footprint] for Join chains of field lenses of any depth.
+     The outer optic must be positional for "the absolute range of the inner focus" to exist: when it converts its
+     value (BiMap) the bytes of the inner focus have no position in the arena, and C04_join_frame_outer (any lawful
+     outer optic: nothing outside the OUTER focus changes) is what can be said.  C04_join_frame_needs_positional is the
+     witness: with the outer field seen through a byte swap (lawful, framed) the statement at offset 0 is false.
+   * shapeN: C04_puts_nfold, generic over a list of component lenses ([puts] = the fold of component puts, last component
+     first): with pairwise disjoint component foci every component reads back its own argument and no byte outside the
+     union of the foci changes; C04_shapeN_nfold (N = 2..9) instantiates it for the definitions regenerated from
+     optics/shape.go - shapeN.Get after shapeN.Put returns the tuple of arguments.
+   * morphism_roundtrip: C04_morphism_roundtrip, for ANY list of isos, nil entries skipped, entries may repeat, under
+     (H1) every entry has a lawful source optic and a focused target optic, (H2) two entries are the same iso or have
+     disjoint TARGET foci.  No hypothesis relates SOURCE foci (they may overlap freely): Forward never writes the
+     source, and Inverse writes into each source focus the value it already holds.  Conclusions: source arena restored
+     byte for byte, target left as Forward made it, every target focus holds its source focus, no byte of the target
+     outside the union of target foci changed; C04_morphism_inverse_total: Inverse after Forward never panics.
+     H2 is necessary: C04_morphism_needs_disjoint_targets is a two-iso list satisfying H1 (C04_witness_entries_ok) whose
+     entries differ and share a target focus (C04_witness_targets_overlap) and whose round trip changes the source.
+   Beyond DESIGN 3/C04: C04_morphism_transport - Forward (s, t) then Inverse (t, s2) into ANOTHER source structure s2
+   gives every source focus of s2 the bytes it has in s and leaves every other byte of s2 alone (what the harness
+   observes), for source optics that are focused and [transports] (putting the value read from m into m2 copies the
+   focus bytes: C04_window_transports, C04_chain_transports, C04_bimap_transports, C04_join_transports); H2 as above,
+   and again no disjointness of source foci.
    (Assembled by tools/scripts/gen_properties.py from tools/scripts/properties_src/C04.v.in.) *)
 From Coq Require Import List String Bool Arith ZArith.
-From Golem Require Import Optics.GenPrelude Optics.LayoutFacts Optics.HseqFacts Optics.LensFacts Optics.CombFacts
+From Golem Require Import Optics.GenPrelude Optics.LayoutFacts Optics.HseqFacts Optics.LensFacts Optics.CombFacts Optics.FocusFacts
   Optics.GenHseqFacts Optics.GenShapeFacts Optics.Examples Optics.CombWitness.
 From GolemGen Require Import GenHseq GenOptics GenShape.
 Import ListNotations.
@@ -39,9 +59,64 @@ Theorem C04_join_lawful : forall a b nA nB, lawful a nA -> lawful b nB -> lawful
 Proof. exact join_lawful. Qed.
 Print Assumptions C04_join_lawful.
 
-Theorem C04_join_frame_partial : forall a b nA nB fp, lawful a nA -> framed a nA fp -> framed (Join a b) nB fp.
+(* .. changes nothing outside the focus of its outer optic, whatever lawful optic that is *)
+Theorem C04_join_frame_outer : forall a b nA nB fp, lawful a nA -> framed a nA fp -> framed (Join a b) nB fp.
 Proof. exact join_frame_outer. Qed.
-Print Assumptions C04_join_frame_partial.
+Print Assumptions C04_join_frame_outer.
+
+(* positional optics: field lenses, and Joins of positional optics to any depth *)
+Theorem C04_window_field : forall l, window (Field l) (e_off (l_t l) + e_root (l_t l)) (sizeof (l_A l)).
+Proof. exact window_field. Qed.
+Print Assumptions C04_window_field.
+
+Theorem C04_window_join : forall a b offA nA offB nB,
+  window a offA nA -> window b offB nB -> window (Join a b) (offA + offB) nB.
+Proof. exact window_join. Qed.
+Print Assumptions C04_window_join.
+
+(* join_frame in full: with a positional outer optic, a Put through Join a b changes no byte of the arena outside the
+   inner focus - the frame of b, moved to where a's value lies *)
+Theorem C04_join_frame : forall a b offA nA nB fpB, window a offA nA -> framed b nB fpB ->
+  framed (Join a b) nB (map (fun r => (offA + fst r, snd r)) fpB).
+Proof. exact join_frame. Qed.
+Print Assumptions C04_join_frame.
+
+(* .. with the computed footprint: a Join chain of field lenses (any depth) writes inside [footprint] only, and the
+   footprint of Join a b is the footprint of b moved to the offset of a *)
+Theorem C04_chain_framed : forall o, is_chain o = true -> framed o (chain_size o) (footprint o).
+Proof. exact chain_framed. Qed.
+Print Assumptions C04_chain_framed.
+
+Theorem C04_footprint_join : forall a b, is_chain a = true ->
+  footprint (Join a b) = map (fun r => (chain_off a + fst r, snd r)) (footprint b).
+Proof. exact footprint_join_chain. Qed.
+Print Assumptions C04_footprint_join.
+
+(* focused optics: lawful, framed by fp, reading fp only *)
+Theorem C04_field_focused : forall l,
+  focused (Field l) (sizeof (l_A l)) [(e_off (l_t l) + e_root (l_t l), sizeof (l_A l))].
+Proof. exact field_focused. Qed.
+Print Assumptions C04_field_focused.
+
+Theorem C04_chain_focused : forall o, is_chain o = true -> focused o (chain_size o) (footprint o).
+Proof. exact chain_focused. Qed.
+Print Assumptions C04_chain_focused.
+
+Theorem C04_join_focused : forall a b offA nA nB fpB, window a offA nA -> lawful a nA -> focused b nB fpB ->
+  focused (Join a b) nB (map (fun r => (offA + fst r, snd r)) fpB).
+Proof. exact join_focused. Qed.
+Print Assumptions C04_join_focused.
+
+Theorem C04_bimap_focused : forall o f g nA nB fp, focused o nA fp ->
+  (forall a, List.length a = nA -> g (f a) = a /\ List.length (f a) = nB) ->
+  (forall b, List.length b = nB -> f (g b) = b /\ List.length (g b) = nA) ->
+  focused (BiMap o f g) nB fp.
+Proof. exact bimap_focused. Qed.
+Print Assumptions C04_bimap_focused.
+
+Theorem C04_disjointb_sound : forall fp1 fp2, disjointb fp1 fp2 = true -> disjoint_fp fp1 fp2.
+Proof. exact disjointb_sound. Qed.
+Print Assumptions C04_disjointb_sound.
 
 (* BiMap (and BiMapS/B/I/F as instances) with mutually inverse conversions obeys the laws on the converted value *)
 Theorem C04_bimap_lawful : forall o f g nA nB,
@@ -98,16 +173,84 @@ Theorem C04_morphism_skips_nil : forall seq w,
 Proof. exact morphism_skips_nil. Qed.
 Print Assumptions C04_morphism_skips_nil.
 
-Theorem C04_morphism_roundtrip_partial : forall i n w w1 w2 k1 k2, lawful (i_sa i) n -> lawful (i_ta i) n ->
+(* a list with one iso and any number of nil entries needs lawful optics only *)
+Theorem C04_morphism_roundtrip_single : forall i n w w1 w2 k1 k2, lawful (i_sa i) n -> lawful (i_ta i) n ->
   let seq := repeat None k1 ++ Some i :: repeat None k2 in
   morphism_forward seq w = Ok w1 -> morphism_inverse seq w1 = Ok w2 ->
   ms w2 = ms w /\ mt w2 = mt w1.
 Proof. exact morphism_roundtrip_single. Qed.
-Print Assumptions C04_morphism_roundtrip_partial.
+Print Assumptions C04_morphism_roundtrip_single.
+
+(* morphism_roundtrip in full: ANY list of isos - nil entries skipped, entries may repeat, source foci may overlap.
+   [nof i] is the size of the values of iso i, [tfp i] its target focus.  Forward then Inverse: the source arena is
+   restored byte for byte, the target stays as Forward made it, every target focus holds its source focus, and no byte
+   of the target outside the union of the target foci has changed. *)
+Theorem C04_morphism_roundtrip : forall (nof : iso -> nat) (tfp : iso -> list (nat * nat)) seq,
+  (forall i, In (Some i) seq -> lawful (i_sa i) (nof i) /\ focused (i_ta i) (nof i) (tfp i)) ->
+  (forall i j, In (Some i) seq -> In (Some j) seq -> i = j \/ disjoint_fp (tfp i) (tfp j)) ->
+  forall w w1 w2, morphism_forward seq w = Ok w1 -> morphism_inverse seq w1 = Ok w2 ->
+  ms w2 = ms w /\ mt w2 = mt w1 /\ ms w1 = ms w /\ ps w2 = ps w /\ pt w2 = pt w /\
+  (forall i, In (Some i) seq -> oget (i_ta i) (mt w2) (pt w) = oget (i_sa i) (ms w) (ps w)) /\
+  (forall k, outside (flat_map tfp (isos seq)) (pt w) k -> nth_error (mt w2) k = nth_error (mt w) k).
+Proof. exact morphism_roundtrip. Qed.
+Print Assumptions C04_morphism_roundtrip.
+
+Theorem C04_morphism_inverse_total : forall (nof : iso -> nat) (tfp : iso -> list (nat * nat)) seq,
+  (forall i, In (Some i) seq -> lawful (i_sa i) (nof i) /\ focused (i_ta i) (nof i) (tfp i)) ->
+  (forall i j, In (Some i) seq -> In (Some j) seq -> i = j \/ disjoint_fp (tfp i) (tfp j)) ->
+  forall w w1, morphism_forward seq w = Ok w1 -> morphism_inverse seq w1 = Ok w1.
+Proof. exact morphism_inverse_total. Qed.
+Print Assumptions C04_morphism_inverse_total.
+
+(* .. and the way back into ANOTHER source structure m2 of the same size: every byte of a source focus becomes that of
+   the original source, every other byte of m2 stays, so every source optic reads from it what it read from the original *)
+Theorem C04_morphism_transport : forall (nof : iso -> nat) (sfp tfp : iso -> list (nat * nat)) seq,
+  (forall i, In (Some i) seq ->
+     focused (i_sa i) (nof i) (sfp i) /\ transports (i_sa i) (sfp i) /\ focused (i_ta i) (nof i) (tfp i)) ->
+  (forall i j, In (Some i) seq -> In (Some j) seq -> i = j \/ disjoint_fp (tfp i) (tfp j)) ->
+  forall w w1 m2 w2, List.length m2 = List.length (ms w) ->
+  morphism_forward seq w = Ok w1 -> morphism_inverse seq (mkTwo m2 (ps w) (mt w1) (pt w1)) = Ok w2 ->
+  mt w2 = mt w1 /\ List.length (ms w2) = List.length m2 /\
+  (forall k, inside (flat_map sfp (isos seq)) (ps w) k -> nth_error (ms w2) k = nth_error (ms w) k) /\
+  (forall k, outside (flat_map sfp (isos seq)) (ps w) k -> nth_error (ms w2) k = nth_error m2 k) /\
+  (forall i, In (Some i) seq -> oget (i_sa i) (ms w2) (ps w) = oget (i_sa i) (ms w) (ps w)).
+Proof. exact morphism_transport. Qed.
+Print Assumptions C04_morphism_transport.
+
+Theorem C04_window_transports : forall o off n, window o off n -> transports o [(off, n)].
+Proof. exact window_transports. Qed.
+Print Assumptions C04_window_transports.
+
+Theorem C04_chain_transports : forall o, is_chain o = true -> transports o (footprint o).
+Proof. exact chain_transports. Qed.
+Print Assumptions C04_chain_transports.
+
+Theorem C04_bimap_transports : forall o f g nA fp, lawful o nA -> (forall a, List.length a = nA -> g (f a) = a) ->
+  transports o fp -> transports (BiMap o f g) fp.
+Proof. exact bimap_transports. Qed.
+Print Assumptions C04_bimap_transports.
+
+Theorem C04_join_transports : forall a b offA nA fpB, window a offA nA -> transports b fpB ->
+  (forall r, In r fpB -> fst r + snd r <= nA) ->
+  transports (Join a b) (map (fun r => (offA + fst r, snd r)) fpB).
+Proof. exact join_transports. Qed.
+Print Assumptions C04_join_transports.
+
+(* ---- a sequence of component puts (what shapeN.Put is, see C04_shapeN_nfold below): with pairwise disjoint component
+        foci every component reads back its own argument and no byte outside the union of the foci changes ------------ *)
+Theorem C04_puts_nfold : forall cs m s m', Forall comp_ok cs ->
+  ForallOrdPairs (fun c1 c2 => disjoint_fp (c_fp c1) (c_fp c2)) cs ->
+  puts (map comp_arg cs) m s = Ok m' ->
+  List.length m' = List.length m /\
+  Forall (fun c => oget (c_o c) m' s = Ok (c_x c)) cs /\
+  (forall i, outside (flat_map c_fp cs) s i -> nth_error m' i = nth_error m i).
+Proof. exact puts_spec. Qed.
+Print Assumptions C04_puts_nfold.
 
 (* ---- per arity (N = 2..9), about the definitions regenerated from optics/shape.go: shapeN.Put = the component puts,
         last component first, returning the pointer it was given; shapeN.Get = the tuple of component gets in order;
-        ForShapeN = ForProductN packed into the record ---------------------------------------------------------- *)
+        ForShapeN = ForProductN packed into the record; shapeN_nfold: with focused components on pairwise disjoint foci,
+        shapeN.Get after shapeN.Put returns the arguments and no byte outside the foci has changed ------------------- *)
 Theorem C04_shape2_Put : forall (lens : shape2) (s : ptr) (a b : value) (m : mem),
   shape2_Put lens s a b m =
   (m1 <- oput (shape2_b lens) m s b ;;
@@ -127,6 +270,17 @@ Theorem C04_ForShape2 : forall (T A B : ty) (attr : list string),
   rmap (fun '(a, b) => mk_shape2 a b) (ForProduct2 T A B attr).
 Proof. exact ForShape2_spec. Qed.
 Print Assumptions C04_ForShape2.
+
+Theorem C04_shape2_nfold : forall (lens : shape2) (s p : ptr) (a b : value) (m m' : mem) (na nb : nat) (fa fb : list (nat * nat)),
+  focused (shape2_a lens) na fa ->
+  focused (shape2_b lens) nb fb ->
+  List.length a = na -> List.length b = nb ->
+  ForallOrdPairs disjoint_fp [fa; fb] ->
+  shape2_Put lens s a b m = Ok (p, m') ->
+  p = s /\ shape2_Get lens s m' = Ok ((a, b), m') /\
+  (forall i, outside (List.concat [fa; fb]) s i -> nth_error m' i = nth_error m i).
+Proof. exact shape2_nfold. Qed.
+Print Assumptions C04_shape2_nfold.
 
 Theorem C04_shape3_Put : forall (lens : shape3) (s : ptr) (a b c : value) (m : mem),
   shape3_Put lens s a b c m =
@@ -149,6 +303,18 @@ Theorem C04_ForShape3 : forall (T A B C : ty) (attr : list string),
   rmap (fun '(a, b, c) => mk_shape3 a b c) (ForProduct3 T A B C attr).
 Proof. exact ForShape3_spec. Qed.
 Print Assumptions C04_ForShape3.
+
+Theorem C04_shape3_nfold : forall (lens : shape3) (s p : ptr) (a b c : value) (m m' : mem) (na nb nc : nat) (fa fb fc : list (nat * nat)),
+  focused (shape3_a lens) na fa ->
+  focused (shape3_b lens) nb fb ->
+  focused (shape3_c lens) nc fc ->
+  List.length a = na -> List.length b = nb -> List.length c = nc ->
+  ForallOrdPairs disjoint_fp [fa; fb; fc] ->
+  shape3_Put lens s a b c m = Ok (p, m') ->
+  p = s /\ shape3_Get lens s m' = Ok ((a, b, c), m') /\
+  (forall i, outside (List.concat [fa; fb; fc]) s i -> nth_error m' i = nth_error m i).
+Proof. exact shape3_nfold. Qed.
+Print Assumptions C04_shape3_nfold.
 
 Theorem C04_shape4_Put : forall (lens : shape4) (s : ptr) (a b c d : value) (m : mem),
   shape4_Put lens s a b c d m =
@@ -173,6 +339,19 @@ Theorem C04_ForShape4 : forall (T A B C D : ty) (attr : list string),
   rmap (fun '(a, b, c, d) => mk_shape4 a b c d) (ForProduct4 T A B C D attr).
 Proof. exact ForShape4_spec. Qed.
 Print Assumptions C04_ForShape4.
+
+Theorem C04_shape4_nfold : forall (lens : shape4) (s p : ptr) (a b c d : value) (m m' : mem) (na nb nc nd : nat) (fa fb fc fd : list (nat * nat)),
+  focused (shape4_a lens) na fa ->
+  focused (shape4_b lens) nb fb ->
+  focused (shape4_c lens) nc fc ->
+  focused (shape4_d lens) nd fd ->
+  List.length a = na -> List.length b = nb -> List.length c = nc -> List.length d = nd ->
+  ForallOrdPairs disjoint_fp [fa; fb; fc; fd] ->
+  shape4_Put lens s a b c d m = Ok (p, m') ->
+  p = s /\ shape4_Get lens s m' = Ok ((a, b, c, d), m') /\
+  (forall i, outside (List.concat [fa; fb; fc; fd]) s i -> nth_error m' i = nth_error m i).
+Proof. exact shape4_nfold. Qed.
+Print Assumptions C04_shape4_nfold.
 
 Theorem C04_shape5_Put : forall (lens : shape5) (s : ptr) (a b c d e : value) (m : mem),
   shape5_Put lens s a b c d e m =
@@ -199,6 +378,20 @@ Theorem C04_ForShape5 : forall (T A B C D E : ty) (attr : list string),
   rmap (fun '(a, b, c, d, e) => mk_shape5 a b c d e) (ForProduct5 T A B C D E attr).
 Proof. exact ForShape5_spec. Qed.
 Print Assumptions C04_ForShape5.
+
+Theorem C04_shape5_nfold : forall (lens : shape5) (s p : ptr) (a b c d e : value) (m m' : mem) (na nb nc nd ne : nat) (fa fb fc fd fe : list (nat * nat)),
+  focused (shape5_a lens) na fa ->
+  focused (shape5_b lens) nb fb ->
+  focused (shape5_c lens) nc fc ->
+  focused (shape5_d lens) nd fd ->
+  focused (shape5_e lens) ne fe ->
+  List.length a = na -> List.length b = nb -> List.length c = nc -> List.length d = nd -> List.length e = ne ->
+  ForallOrdPairs disjoint_fp [fa; fb; fc; fd; fe] ->
+  shape5_Put lens s a b c d e m = Ok (p, m') ->
+  p = s /\ shape5_Get lens s m' = Ok ((a, b, c, d, e), m') /\
+  (forall i, outside (List.concat [fa; fb; fc; fd; fe]) s i -> nth_error m' i = nth_error m i).
+Proof. exact shape5_nfold. Qed.
+Print Assumptions C04_shape5_nfold.
 
 Theorem C04_shape6_Put : forall (lens : shape6) (s : ptr) (a b c d e f : value) (m : mem),
   shape6_Put lens s a b c d e f m =
@@ -227,6 +420,21 @@ Theorem C04_ForShape6 : forall (T A B C D E F : ty) (attr : list string),
   rmap (fun '(a, b, c, d, e, f) => mk_shape6 a b c d e f) (ForProduct6 T A B C D E F attr).
 Proof. exact ForShape6_spec. Qed.
 Print Assumptions C04_ForShape6.
+
+Theorem C04_shape6_nfold : forall (lens : shape6) (s p : ptr) (a b c d e f : value) (m m' : mem) (na nb nc nd ne nf : nat) (fa fb fc fd fe ff : list (nat * nat)),
+  focused (shape6_a lens) na fa ->
+  focused (shape6_b lens) nb fb ->
+  focused (shape6_c lens) nc fc ->
+  focused (shape6_d lens) nd fd ->
+  focused (shape6_e lens) ne fe ->
+  focused (shape6_f lens) nf ff ->
+  List.length a = na -> List.length b = nb -> List.length c = nc -> List.length d = nd -> List.length e = ne -> List.length f = nf ->
+  ForallOrdPairs disjoint_fp [fa; fb; fc; fd; fe; ff] ->
+  shape6_Put lens s a b c d e f m = Ok (p, m') ->
+  p = s /\ shape6_Get lens s m' = Ok ((a, b, c, d, e, f), m') /\
+  (forall i, outside (List.concat [fa; fb; fc; fd; fe; ff]) s i -> nth_error m' i = nth_error m i).
+Proof. exact shape6_nfold. Qed.
+Print Assumptions C04_shape6_nfold.
 
 Theorem C04_shape7_Put : forall (lens : shape7) (s : ptr) (a b c d e f g : value) (m : mem),
   shape7_Put lens s a b c d e f g m =
@@ -257,6 +465,22 @@ Theorem C04_ForShape7 : forall (T A B C D E F G : ty) (attr : list string),
   rmap (fun '(a, b, c, d, e, f, g) => mk_shape7 a b c d e f g) (ForProduct7 T A B C D E F G attr).
 Proof. exact ForShape7_spec. Qed.
 Print Assumptions C04_ForShape7.
+
+Theorem C04_shape7_nfold : forall (lens : shape7) (s p : ptr) (a b c d e f g : value) (m m' : mem) (na nb nc nd ne nf ng : nat) (fa fb fc fd fe ff fg : list (nat * nat)),
+  focused (shape7_a lens) na fa ->
+  focused (shape7_b lens) nb fb ->
+  focused (shape7_c lens) nc fc ->
+  focused (shape7_d lens) nd fd ->
+  focused (shape7_e lens) ne fe ->
+  focused (shape7_f lens) nf ff ->
+  focused (shape7_g lens) ng fg ->
+  List.length a = na -> List.length b = nb -> List.length c = nc -> List.length d = nd -> List.length e = ne -> List.length f = nf -> List.length g = ng ->
+  ForallOrdPairs disjoint_fp [fa; fb; fc; fd; fe; ff; fg] ->
+  shape7_Put lens s a b c d e f g m = Ok (p, m') ->
+  p = s /\ shape7_Get lens s m' = Ok ((a, b, c, d, e, f, g), m') /\
+  (forall i, outside (List.concat [fa; fb; fc; fd; fe; ff; fg]) s i -> nth_error m' i = nth_error m i).
+Proof. exact shape7_nfold. Qed.
+Print Assumptions C04_shape7_nfold.
 
 Theorem C04_shape8_Put : forall (lens : shape8) (s : ptr) (a b c d e f g h : value) (m : mem),
   shape8_Put lens s a b c d e f g h m =
@@ -289,6 +513,23 @@ Theorem C04_ForShape8 : forall (T A B C D E F G H : ty) (attr : list string),
   rmap (fun '(a, b, c, d, e, f, g, h) => mk_shape8 a b c d e f g h) (ForProduct8 T A B C D E F G H attr).
 Proof. exact ForShape8_spec. Qed.
 Print Assumptions C04_ForShape8.
+
+Theorem C04_shape8_nfold : forall (lens : shape8) (s p : ptr) (a b c d e f g h : value) (m m' : mem) (na nb nc nd ne nf ng nh : nat) (fa fb fc fd fe ff fg fh : list (nat * nat)),
+  focused (shape8_a lens) na fa ->
+  focused (shape8_b lens) nb fb ->
+  focused (shape8_c lens) nc fc ->
+  focused (shape8_d lens) nd fd ->
+  focused (shape8_e lens) ne fe ->
+  focused (shape8_f lens) nf ff ->
+  focused (shape8_g lens) ng fg ->
+  focused (shape8_h lens) nh fh ->
+  List.length a = na -> List.length b = nb -> List.length c = nc -> List.length d = nd -> List.length e = ne -> List.length f = nf -> List.length g = ng -> List.length h = nh ->
+  ForallOrdPairs disjoint_fp [fa; fb; fc; fd; fe; ff; fg; fh] ->
+  shape8_Put lens s a b c d e f g h m = Ok (p, m') ->
+  p = s /\ shape8_Get lens s m' = Ok ((a, b, c, d, e, f, g, h), m') /\
+  (forall i, outside (List.concat [fa; fb; fc; fd; fe; ff; fg; fh]) s i -> nth_error m' i = nth_error m i).
+Proof. exact shape8_nfold. Qed.
+Print Assumptions C04_shape8_nfold.
 
 Theorem C04_shape9_Put : forall (lens : shape9) (s : ptr) (a b c d e f g h i : value) (m : mem),
   shape9_Put lens s a b c d e f g h i m =
@@ -324,6 +565,24 @@ Theorem C04_ForShape9 : forall (T A B C D E F G H I : ty) (attr : list string),
 Proof. exact ForShape9_spec. Qed.
 Print Assumptions C04_ForShape9.
 
+Theorem C04_shape9_nfold : forall (lens : shape9) (s p : ptr) (a b c d e f g h i : value) (m m' : mem) (na nb nc nd ne nf ng nh ni : nat) (fa fb fc fd fe ff fg fh fi : list (nat * nat)),
+  focused (shape9_a lens) na fa ->
+  focused (shape9_b lens) nb fb ->
+  focused (shape9_c lens) nc fc ->
+  focused (shape9_d lens) nd fd ->
+  focused (shape9_e lens) ne fe ->
+  focused (shape9_f lens) nf ff ->
+  focused (shape9_g lens) ng fg ->
+  focused (shape9_h lens) nh fh ->
+  focused (shape9_i lens) ni fi ->
+  List.length a = na -> List.length b = nb -> List.length c = nc -> List.length d = nd -> List.length e = ne -> List.length f = nf -> List.length g = ng -> List.length h = nh -> List.length i = ni ->
+  ForallOrdPairs disjoint_fp [fa; fb; fc; fd; fe; ff; fg; fh; fi] ->
+  shape9_Put lens s a b c d e f g h i m = Ok (p, m') ->
+  p = s /\ shape9_Get lens s m' = Ok ((a, b, c, d, e, f, g, h, i), m') /\
+  (forall i, outside (List.concat [fa; fb; fc; fd; fe; ff; fg; fh; fi]) s i -> nth_error m' i = nth_error m i).
+Proof. exact shape9_nfold. Qed.
+Print Assumptions C04_shape9_nfold.
+
 
 (* ---- non-vacuity ------------------------------------------------------------------------------------------- *)
 (* Join of depth 3 on K2 (K2A -> K2B -> K2C -> S): reads bytes 132..147 of the arena, writes only them *)
@@ -345,3 +604,63 @@ Theorem C04_morphism_needs_disjoint_targets :
 Proof. exact morphism_needs_disjoint_targets. Qed.
 Print Assumptions C04_morphism_needs_disjoint_targets.
 
+(* join_frame_needs_positional (Optics/CombWitness.v): KO = struct { P struct { X, Y int8 } }; outer optic = the field P
+   through a conversion that swaps its two bytes (lawful, framed by the field), inner optic = the field X; a Put through
+   the Join changes byte 1 of the arena, outside the inner focus placed at the outer offset *)
+Theorem C04_join_frame_needs_positional : exists a b,
+  swap_join = Ok (Join (BiMap a (@rev byte) (@rev byte)) b) /\
+  lawful (BiMap a (@rev byte) (@rev byte)) 2 /\ framed (BiMap a (@rev byte) (@rev byte)) 2 [(0, 2)] /\
+  framed b 1 [(0, 1)] /\
+  ~ framed (Join (BiMap a (@rev byte) (@rev byte)) b) 1 (map (fun r => (0 + fst r, snd r)) [(0, 1)]).
+Proof. exact join_frame_needs_positional. Qed.
+Print Assumptions C04_join_frame_needs_positional.
+
+(* .. while that list satisfies the other hypothesis of C04_morphism_roundtrip, and fails this one *)
+Theorem C04_witness_entries_ok : forall i, In (Some i) w_seq ->
+  lawful (i_sa i) 8 /\ focused (i_ta i) 8 (footprint (i_ta i)).
+Proof. exact w_seq_entries_ok. Qed.
+Print Assumptions C04_witness_entries_ok.
+
+Theorem C04_witness_targets_overlap : exists i j, w_seq = [Some i; Some j] /\ i <> j /\
+  footprint (i_ta i) = [(0, 8)] /\ footprint (i_ta j) = [(0, 8)].
+Proof. exact w_seq_targets_overlap. Qed.
+Print Assumptions C04_witness_targets_overlap.
+
+(* the hypotheses of C04_morphism_roundtrip hold for a list with nil entries, two different isos (A -> B, B -> A) and a
+   repeated entry, on which Forward swaps the fields into the target and the theorem applies *)
+Example C04_ex_morphism_hyps :
+  (forall i, In (Some i) r_seq -> lawful (i_sa i) 8 /\ focused (i_ta i) 8 (footprint (i_ta i))) /\
+  (forall i j, In (Some i) r_seq -> In (Some j) r_seq -> i = j \/ disjoint_fp (footprint (i_ta i)) (footprint (i_ta j))) /\
+  (exists w1, morphism_forward r_seq w_start = Ok w1 /\ mt w1 = (repeat 2%Z 8 ++ repeat 1%Z 8)%list /\
+              morphism_inverse r_seq w1 = Ok w1).
+Proof. exact (conj r_seq_entries_ok (conj r_seq_targets_ok r_seq_runs)). Qed.
+
+Example C04_ex_morphism_roundtrip : forall w1 w2,
+  morphism_forward r_seq w_start = Ok w1 -> morphism_inverse r_seq w1 = Ok w2 ->
+  ms w2 = ms w_start /\ mt w2 = mt w1 /\ (forall k, 16 <= k -> nth_error (mt w2) k = nth_error (mt w_start) k).
+Proof. exact r_seq_roundtrip. Qed.
+
+(* .. and so do the hypotheses of C04_morphism_transport; the way back into a structure full of 9s copies A and B *)
+Example C04_ex_morphism_transport :
+  (forall i, In (Some i) r_seq -> focused (i_sa i) 8 (footprint (i_sa i)) /\ transports (i_sa i) (footprint (i_sa i)) /\
+                                  focused (i_ta i) 8 (footprint (i_ta i))) /\
+  (exists w1 w2, morphism_forward r_seq w_start = Ok w1 /\
+     morphism_inverse r_seq (mkTwo (repeat 9%Z 16) (ps w_start) (mt w1) (pt w1)) = Ok w2 /\ ms w2 = ms w_start).
+Proof. exact (conj r_seq_transport_ok r_seq_transport_runs). Qed.
+
+(* the hypotheses of C04_shape2_nfold hold for the lenses ForShape2 derives on KAB *)
+Example C04_ex_shape2_hyps : exists lens,
+  ForShape2 KAB t_int64 t_int64 ["A"; "B"]%string = Ok lens /\
+  focused (shape2_a lens) 8 [(0, 8)] /\ focused (shape2_b lens) 8 [(8, 8)] /\
+  ForallOrdPairs disjoint_fp [[(0, 8)]; [(8, 8)]] /\
+  shape2_Put lens 0 (repeat 7%Z 8) (repeat 9%Z 8) (repeat 0%Z 16) = Ok (0, (repeat 7%Z 8 ++ repeat 9%Z 8)%list).
+Proof. exact shape2_hyps_ok. Qed.
+
+(* the Join chain of depth 3 above is positional: its computed footprint (the 16 bytes of S) is its frame *)
+Example C04_ex_chain_framed :
+  match ForProduct1 K2 K2A [], ForProduct1 K2A K2B [], ForProduct1 K2B K2C [], ForProduct1 K2C t_string ["S"]%string with
+  | Ok a, Ok b, Ok c, Ok d =>
+      let j := Join (Join (Join a b) c) d in footprint j = [(32, 16)] /\ framed j 16 (footprint j)
+  | _, _, _, _ => False
+  end.
+Proof. exact k2_chain_framed. Qed.
